@@ -143,3 +143,5 @@ func mustRead(t *testing.T, p string) []byte {
 	}
 	return b
 }
+
+func readFile(p string) ([]byte, error) { return os.ReadFile(p) }
